@@ -8,6 +8,8 @@
     [alzfpc] are locals of the Go function that live across time steps of one
     run: they are part of the machine state here, initialised as the Go code
     does at the top of [sacramento] and NOT carried in the state vector.
+    This version models the code WITH the three guards of hooks/fix-sacramento-guards.diff
+    (ratio >= 0, fracp <= 1, adimc <= uztwm+lztwm as in the NWS Fortran).
     Constants: pdn20 = 5.08, pdnor = 25.4, 0.5*pdnor = 12.7 (constant
     expression), VERY_SMALL = 0.0, nunit = 5. *)
 From Coq Require Import ZArith List Bool.
@@ -53,7 +55,9 @@ Section K.
     let hpl := alzfpm / (alzfpm + alzfsm) in
     let pinc := c_pinc c in
     let dinc := c_dinc c in
-    let ratio := (i_adimc v - uztwc_) / lztwm p in
+    let ratio0 := (i_adimc v - uztwc_) / lztwm p in
+    (* if ratio < 0 { ratio = 0 } *)
+    let ratio := if ratio0 <? zero then zero else ratio0 in
     let addro := pinc * ratio * ratio in
     (* baseflow from the lower zone primary store *)
     let '(alzfpc0, bf1) := if i_alzfpc v >? zero then (i_alzfpc v, i_alzfpc v * c_dlzp c)
@@ -90,8 +94,10 @@ Section K.
           if percfw >? zero then
             let ratlp := one - alzfpc1 / alzfpm in
             let ratls := one - alzfsc1 / alzfsm in
-            let percs0 := amin (alzfsm - alzfsc1)
-                               (percfw * (one - hpl * (ratlp + ratlp) / (ratlp + ratls))) in
+            let fracp0 := hpl * (ratlp + ratlp) / (ratlp + ratls) in
+            (* if fracp > 1.0 { fracp = 1.0 } *)
+            let fracp := if fracp0 >? one then one else fracp0 in
+            let percs0 := amin (alzfsm - alzfsc1) (percfw * (one - fracp)) in
             let alzfsc_a := alzfsc1 + percs0 in
             let '(percs, alzfsc_b) := if alzfsc_a >? alzfsm then (percs0 - alzfsc_a + alzfsm, alzfsm)
                                       else (percs0, alzfsc_a) in
@@ -109,10 +115,16 @@ Section K.
           let pav := pinc - uzfwm p + uzfwc3 in
           (uzfwm p, i_flosf v + pav, addro + pav * (one - addro / pinc))
       else (uzfwc3, i_flosf v, addro) in
-    {| i_adimc := i_adimc v + pinc - addro4;
+    (* the additional impervious store is capped at uztwm+lztwm; the excess becomes direct runoff *)
+    let adimc_a := i_adimc v + pinc - addro4 in
+    let '(addro5, adimc_b) :=
+      if adimc_a >? uztwm p + lztwm p
+      then (addro4 + adimc_a - (uztwm p + lztwm p), uztwm p + lztwm p)
+      else (addro4, adimc_a) in
+    {| i_adimc := adimc_b;
        i_alzfpc := alzfpc3; i_alzfsc := alzfsc3; i_flobf := flobf2; i_uzfwc := uzfwc4;
        i_floin := floin3; i_lztwc := lztwc3; i_flosf := flosf4;
-       i_roimp := i_roimp v + addro4 * adimp p |}.
+       i_roimp := i_roimp v + addro5 * adimp p |}.
 
   (** one pass of [for ii := itime; ii <= 2; ii++] with the current adj, pav *)
   Definition sac_pass (p : sac_par) (uztwc_ adj pav : T) (v : sac_inner) : sac_inner :=
@@ -164,7 +176,9 @@ Section K.
     let '(e3, e5) :=
       if uztwm p + lztwm p >? zero then
         (amin ((evapt - e1 - e2) * lztwc st / (uztwm p + lztwm p)) (lztwc st),
-         amin (e1 + (evapt - e1 - e2) * (adimc st - e1 - uztwc2) / (uztwm p + lztwm p)) (adimc st))
+         (* if e5 < 0 { e5 = 0 } *)
+         let e5a := amin (e1 + (evapt - e1 - e2) * (adimc st - e1 - uztwc2) / (uztwm p + lztwm p)) (adimc st) in
+         if e5a <? zero then zero else e5a)
       else (zero, zero) in
     let lztwc1 := lztwc st - e3 in
     let adimc1 := adimc st - e5 in
